@@ -355,6 +355,11 @@ def x7_shims(text, log):
         return "vx_peekable(%s.chars())" % m.group(1)
     text = re.sub(r"\b([a-z_][a-z0-9_]*)\.chars\(\)\.peekable\(\)", peek, text)
 
+    def enum(m):
+        log.add("X7:vx_enumerate")
+        return "vx_enumerate(%s.iter())" % m.group(1)
+    text = re.sub(r"\b((?:self\.)?[a-z_][a-z0-9_]*)\.iter\(\)\.enumerate\(\)", enum, text)
+
     def u16(m):
         log.add("X7:vx_utf16_count")
         return "vx_utf16_count(&%s)" % m.group(1)
@@ -394,7 +399,7 @@ def x6_for_ghost_iter(text, log):
     def f(m):
         log.add("X9:for-ghost-iterator-name")
         return "%sfor %s in it: %s" % (m.group(1), m.group(2), m.group(3))
-    return re.sub(r"(^|\n)(\s*)for ([a-z_][a-z0-9_]*) in ([a-z_][a-z0-9_.()]*) (?=\{)", lambda m: "%s%sfor %s in it: %s " % (m.group(1), m.group(2), m.group(3), m.group(4)) if not log.add("X9:for-ghost-iterator-name") else "", text)
+    return re.sub(r"(^|\n)(\s*)for ([a-z_][a-z0-9_]*|\([a-z_, ]*\)) in ([a-z_][a-z0-9_.()]*) (?=\{)", lambda m: "%s%sfor %s in it: %s " % (m.group(1), m.group(2), m.group(3), m.group(4)) if not log.add("X9:for-ghost-iterator-name") else "", text)
 
 
 def x5b_ref_enum_pattern(text, log):
@@ -407,7 +412,34 @@ def x5b_ref_enum_pattern(text, log):
     return re.sub(r"Some\(&([A-Z][A-Za-z0-9_]*::[A-Z][A-Za-z0-9_]*\()", f, text)
 
 
+def x3b_by_value_writer(text, log):
+    """top-level serializers take `mut writer: W` BY VALUE (W = &mut Vec<u8>, cfb::Stream, ...).
+    To observe the sink after the call, W is instantiated with `&mut VSink`: the parameter
+    becomes `writer: &mut VSink`, and `&mut writer` / `writer.by_ref()` (a `&mut &mut VSink`
+    handed to callees generic in W2) become the reborrow `&mut *writer` (callee at W2 = VSink).
+    `impl Write for &mut W` forwards every call, so both forms drive the same sink."""
+    t2 = re.sub(r"<\s*W\s*:\s*Write\s*>", "", text)
+    t2 = re.sub(r"\bmut writer\s*:\s*W\b", "writer: &mut VSink", t2)
+    t2 = t2.replace("&mut writer", "&mut *writer").replace("writer.by_ref()", "&mut *writer")
+    t2 = re.sub(r"::<LittleEndian>", "", t2)
+    if t2 != text:
+        log.add("X3b:by-value-writer-as-&mut-VSink")
+    return t2
+
+
+def x5c_for_ref_tuple(text, log):
+    """`for &(ref a, b) in e {`  ->  `for vx_e in e { let a = &vx_e.0; let b = vx_e.1;`
+    (the Rust reference defines the reference pattern as exactly this: deref, then bind
+    field 0 by reference and field 1 by copy; b is Copy)"""
+    def f(m):
+        log.add("X5:for-&(ref a, b)")
+        return "for vx_e in %s {\n            let %s = &vx_e.0; let %s = vx_e.1;" % (m.group(3), m.group(1), m.group(2))
+    return re.sub(r"for &\(ref ([a-z_][a-z0-9_]*), ([a-z_][a-z0-9_]*)\) in ([^{]+?)\s*\{", f, text)
+
+
 OPTS = {
+    "x5c": x5c_for_ref_tuple,
+    "x3b": x3b_by_value_writer,
     "x5b": x5b_ref_enum_pattern,
     "forit": x6_for_ghost_iter,
     "x3": x3_generic_io,
